@@ -31,15 +31,24 @@ func GetLabelsValues(obj *metav1.ObjectMeta) ([]string, []string) {
 
 // BuildInfoLabels build the lists of label keys and values from the ObjectMeta Labels.
 func BuildInfoLabels(obj *metav1.ObjectMeta) ([]string, []string) {
-	labelKeys := []string{}
-	for key := range obj.Labels {
-		labelKeys = append(labelKeys, sanitizeLabelName(key))
+	type labelPair struct{ key, value string }
+	pairs := make([]labelPair, 0, len(obj.Labels))
+	for key, value := range obj.Labels {
+		pairs = append(pairs, labelPair{key: sanitizeLabelName(key), value: value})
 	}
-	sort.Strings(labelKeys)
+	sort.Slice(pairs, func(i, j int) bool {
+		if pairs[i].key != pairs[j].key {
+			return pairs[i].key < pairs[j].key
+		}
 
-	labelValues := make([]string, len(obj.Labels))
-	for i, key := range labelKeys {
-		labelValues[i] = obj.Labels[key]
+		return pairs[i].value < pairs[j].value
+	})
+
+	labelKeys := make([]string, len(pairs))
+	labelValues := make([]string, len(pairs))
+	for i, pair := range pairs {
+		labelKeys[i] = pair.key
+		labelValues[i] = pair.value
 	}
 
 	return labelKeys, labelValues
